@@ -482,6 +482,67 @@ impl From<ScheduledBasicBlock<'_>> for ScheduledBasicBlockOwned {
     }
 }
 
+/// Verification hook (compiled only with `--cfg rigetti_quil_rs_verif`): drives the private
+/// dependency queue directly with a sequence of accesses, so that its bookkeeping can be compared
+/// with a reference model without going through instruction semantics.
+#[cfg(rigetti_quil_rs_verif)]
+pub mod verif {
+    use super::dependency_queue::DependencyQueue;
+    use super::{InstructionFrameInteraction, MemoryAccessType, ScheduledGraphNode};
+
+    /// Feed `(node, access)` pairs to a fresh memory-access queue. Returns the dependencies reported
+    /// at each step as `(access type awaited, node)` pairs, and the pending dependencies at the end.
+    #[allow(clippy::type_complexity)]
+    pub fn memory_queue(
+        accesses: &[(ScheduledGraphNode, MemoryAccessType)],
+    ) -> (
+        Vec<Vec<(MemoryAccessType, ScheduledGraphNode)>>,
+        Vec<(MemoryAccessType, ScheduledGraphNode)>,
+    ) {
+        let mut queue: DependencyQueue<MemoryAccessType> = DependencyQueue::new();
+        let steps = accesses
+            .iter()
+            .map(|(node, access)| {
+                queue
+                    .record_access_and_get_dependencies(*node, *access)
+                    .into_iter()
+                    .map(|dependency| (dependency.access_type, dependency.node_id))
+                    .collect()
+            })
+            .collect();
+        let pending = queue
+            .into_pending_dependencies()
+            .into_iter()
+            .map(|dependency| (dependency.access_type, dependency.node_id))
+            .collect();
+        (steps, pending)
+    }
+
+    /// Feed `(node, uses)` pairs to a fresh frame queue (`uses == false` means the frame is only
+    /// blocked). Returns the dependencies reported at each step and the pending ones at the end.
+    pub fn frame_queue(
+        accesses: &[(ScheduledGraphNode, bool)],
+    ) -> (Vec<Vec<ScheduledGraphNode>>, Vec<ScheduledGraphNode>) {
+        let mut queue: DependencyQueue<InstructionFrameInteraction> = DependencyQueue::new();
+        let steps = accesses
+            .iter()
+            .map(|(node, uses)| {
+                let interaction = if *uses {
+                    InstructionFrameInteraction::Using
+                } else {
+                    InstructionFrameInteraction::Blocking
+                };
+                queue
+                    .record_access_and_get_dependencies(*node, interaction)
+                    .into_iter()
+                    .collect()
+            })
+            .collect();
+        let pending = queue.into_pending_dependencies().into_iter().collect();
+        (steps, pending)
+    }
+}
+
 #[cfg(all(test, feature = "graphviz-dot"))]
 mod graphviz_dot_tests {
     use super::*;
